@@ -92,6 +92,8 @@ type c18fn struct {
 	respVars     map[*ast.Object]bool
 	named        *irVar
 	recov        *irVar
+	siteID       map[*ast.AssignStmt]int // CacheContext() assignment -> cache id (allocated in source order at prescan)
+	firstSite    map[*ast.Object]int     // cache / commit variable -> id of its first CacheContext() site
 }
 
 func (p *c18prog) varOf(id *ast.Ident) *irVar {
@@ -174,11 +176,22 @@ func (f *c18fn) prescan(n ast.Node) {
 			if len(x.Rhs) == 1 && len(x.Lhs) == 2 {
 				if ce, ok := x.Rhs[0].(*ast.CallExpr); ok {
 					if sel, ok := ce.Fun.(*ast.SelectorExpr); ok && sel.Sel.Name == "CacheContext" {
+						if _, seen := f.siteID[x]; !seen {
+							f.p.caches++
+							f.siteID[x] = f.p.caches
+						}
+						k := f.siteID[x]
 						if id, ok := x.Lhs[0].(*ast.Ident); ok && id.Obj != nil {
 							f.cacheVarObjs[id.Obj] = true
+							if _, ok := f.firstSite[id.Obj]; !ok {
+								f.firstSite[id.Obj] = k
+							}
 						}
 						if id, ok := x.Lhs[1].(*ast.Ident); ok && id.Obj != nil {
 							f.commitObjs[id.Obj] = true
+							if _, ok := f.firstSite[id.Obj]; !ok {
+								f.firstSite[id.Obj] = k
+							}
 						}
 					}
 				}
@@ -233,7 +246,7 @@ func (p *c18prog) leafName(name string, pos token.Pos) string {
 func (p *c18prog) newFn(rel string) *c18fn {
 	return &c18fn{p: p, rel: rel, ctxKind: map[*ast.Object]string{}, ctxNames: map[string]string{}, commitOf: map[*ast.Object]int{},
 		cacheVarObjs: map[*ast.Object]bool{}, commitObjs: map[*ast.Object]bool{}, nilTested: map[*ast.Object]bool{},
-		ackVars: map[*ast.Object]bool{}, respVars: map[*ast.Object]bool{}}
+		ackVars: map[*ast.Object]bool{}, respVars: map[*ast.Object]bool{}, siteID: map[*ast.AssignStmt]int{}, firstSite: map[*ast.Object]int{}}
 }
 
 func isCtxType(e ast.Expr, src string) bool {
@@ -262,6 +275,10 @@ func (f *c18fn) ctxOf(e ast.Expr) string {
 		}
 		if len(x.Args) == 1 {
 			return f.ctxOf(x.Args[0])
+		}
+		// stateDB.Context(): the context of the EVM state database itself — writes on it are NOT journaled
+		if sel, ok := x.Fun.(*ast.SelectorExpr); ok && sel.Sel.Name == "Context" && len(x.Args) == 0 {
+			return "outer"
 		}
 	}
 	return ""
@@ -371,6 +388,9 @@ func (f *c18fn) isTracked(id *ast.Ident) bool {
 	if id.Obj == nil {
 		return id.Name == "err"
 	}
+	if f.commitObjs[id.Obj] || f.cacheVarObjs[id.Obj] {
+		return false
+	}
 	return id.Name == "err" || f.nilTested[id.Obj] || f.ackVars[id.Obj]
 }
 
@@ -429,6 +449,29 @@ func (f *c18fn) inline(rel string, fd *ast.FuncDecl, ce *ast.CallExpr, errV *irV
 	return &irStmt{K: "inl", Name: name, Named: g.named, Recov: g.recov, A: body, Err: errV}
 }
 
+// closure translates a function literal that the callee runs synchronously (Walk callback, native action): it shares
+// the variables of the enclosing function; its context parameters denote ctxKind ("" = whatever the identifier
+// already denotes); its last result goes to errV.
+func (f *c18fn) closure(fl *ast.FuncLit, ctxKind, name string, errV *irVar) *irStmt {
+	if ctxKind != "" {
+		for _, fld := range fl.Type.Params.List {
+			if isCtxType(fld.Type, f.p.c.src(fld.Type)) {
+				for _, nm := range fld.Names {
+					if nm.Obj != nil {
+						f.ctxKind[nm.Obj] = ctxKind
+					}
+				}
+			}
+		}
+	}
+	savedNamed, savedRecov := f.named, f.recov
+	f.named, f.recov = nil, nil
+	body := f.stmts(fl.Body.List)
+	recov := f.recov
+	f.named, f.recov = savedNamed, savedRecov
+	return &irStmt{K: "inl", Name: name, Recov: recov, A: body, Err: errV}
+}
+
 // nestedCalls translates the state-touching calls nested in the arguments / operands of an expression (inner first).
 func (f *c18fn) nestedCalls(e ast.Node, skip *ast.CallExpr) []*irStmt {
 	var out []*irStmt
@@ -453,7 +496,14 @@ func (f *c18fn) nestedCalls(e ast.Node, skip *ast.CallExpr) []*irStmt {
 			if !ok {
 				return true
 			}
-			for _, a := range ce.Args {
+			syncClosure := false
+			if sel, ok := ce.Fun.(*ast.SelectorExpr); ok && len(ce.Args) > 0 && (sel.Sel.Name == "Walk" || sel.Sel.Name == "ExecuteNativeAction") {
+				_, syncClosure = ce.Args[len(ce.Args)-1].(*ast.FuncLit)
+			}
+			for i, a := range ce.Args {
+				if syncClosure && i == len(ce.Args)-1 {
+					continue
+				}
 				walk(a)
 			}
 			if sel, ok := ce.Fun.(*ast.SelectorExpr); ok {
@@ -523,12 +573,42 @@ func (f *c18fn) call(ce *ast.CallExpr, errV, respV *irVar, force bool) *irStmt {
 	if sel, ok := ce.Fun.(*ast.SelectorExpr); ok && sel.Sel.Name == "CacheContext" {
 		return nil
 	}
+	if sel, ok := ce.Fun.(*ast.SelectorExpr); ok && len(ce.Args) > 0 {
+		if fl, ok := ce.Args[len(ce.Args)-1].(*ast.FuncLit); ok {
+			switch sel.Sel.Name {
+			case "Walk":
+				// collections Walk: the callback runs once per entry; a returned error ends the walk and is returned by Walk
+				p.loops++
+				id := p.loops
+				w := errV
+				if w == nil {
+					w = p.fresh("walkErr")
+				}
+				body := f.closure(fl, "", "Walk callback of "+name, w)
+				return &irStmt{K: "loop", ID: id, A: seqOf(body, &irStmt{K: "ite", Cond: &irCond{K: "not", A: &irCond{K: "ok", V: w}}, A: &irStmt{K: "brk"}, B: &irStmt{K: "skip"}})}
+			case "ExecuteNativeAction":
+				// statedb native action: snapshot, run the closure on the statedb context, revert to the snapshot on error,
+				// journal the snapshot otherwise — a cache that is committed iff the closure returns nil
+				p.caches++
+				k := p.caches
+				w := errV
+				if w == nil {
+					w = p.fresh("nativeErr")
+				}
+				body := f.closure(fl, fmt.Sprintf("cache:%d", k), "native action", w)
+				return seqOf(&irStmt{K: "open", ID: k, Ctx: "outer"}, body,
+					&irStmt{K: "ite", Cond: &irCond{K: "ok", V: w}, A: &irStmt{K: "commit", ID: k}, B: &irStmt{K: "skip"}})
+			}
+		}
+	}
 	if rel, fd := p.resolve(f.rel, ce); fd != nil {
 		return f.inline(rel, fd, ce, errV)
 	}
 	cx := ""
-	if len(ce.Args) > 0 {
-		cx = f.ctxOf(ce.Args[0])
+	for _, a := range ce.Args { // the first argument that is a context (failUnsupportedProposal(logger, ctx, …))
+		if cx = f.ctxOf(a); cx != "" {
+			break
+		}
 	}
 	if cx != "" && !c18Skipped(name) {
 		var args []*irVar
@@ -565,6 +645,16 @@ func (f *c18fn) cond(e ast.Expr) *irCond {
 			return &irCond{K: "or", A: f.cond(x.X), B: f.cond(x.Y)}
 		case token.EQL, token.NEQ:
 			for _, pr := range [][2]ast.Expr{{x.X, x.Y}, {x.Y, x.X}} {
+				if id, ok := pr[0].(*ast.Ident); ok && id.Obj != nil && (f.commitObjs[id.Obj] || f.cacheVarObjs[id.Obj]) {
+					if nl, ok := pr[1].(*ast.Ident); ok && nl.Name == "nil" {
+						// the commit function / cache context variable is still nil: no CacheContext() has been assigned to it
+						c := &irCond{K: "cacheUnset", Text: fmt.Sprint(f.firstSite[id.Obj])}
+						if x.Op == token.NEQ {
+							return &irCond{K: "not", A: c}
+						}
+						return c
+					}
+				}
 				if id, ok := pr[0].(*ast.Ident); ok {
 					if nl, ok := pr[1].(*ast.Ident); ok && nl.Name == "nil" && f.isTracked(id) && (id.Obj == nil || !f.ackVars[id.Obj]) {
 						c := &irCond{K: "ok", V: p.varOf(id)}
@@ -625,8 +715,11 @@ func (f *c18fn) assign(s *ast.AssignStmt) *irStmt {
 	if len(s.Rhs) == 1 && len(s.Lhs) == 2 {
 		if ce, ok := s.Rhs[0].(*ast.CallExpr); ok {
 			if sel, ok := ce.Fun.(*ast.SelectorExpr); ok && sel.Sel.Name == "CacheContext" {
-				p.caches++
-				k := p.caches
+				k, ok := f.siteID[s]
+				if !ok {
+					p.caches++
+					k = p.caches
+				}
 				if id, ok := s.Lhs[0].(*ast.Ident); ok && id.Obj != nil {
 					f.ctxKind[id.Obj] = fmt.Sprintf("cache:%d", k)
 				}
@@ -984,6 +1077,8 @@ func leanCond(c *irCond) string {
 		return fmt.Sprintf("(.%s %s)", c.K, leanVar1(c.V))
 	case "other":
 		return "(.other " + leanStr(c.Text) + ")"
+	case "cacheUnset":
+		return "(.cacheUnset " + c.Text + ")"
 	case "not":
 		return "(.not " + leanCond(c.A) + ")"
 	case "and", "or":
@@ -1062,6 +1157,7 @@ inductive Cond where
   | evmFailed (v : Var)       -- v.Failed()  /  v.VmError != ""
   | evmReverted (v : Var)     -- v.VmError == vm.ErrExecutionReverted.Error()
   | other (text : String)     -- anything else: decided by the environment
+  | cacheUnset (k : Nat)      -- the commit / cache variable of CacheContext() site k is still nil (never assigned)
   | not (c : Cond)
   | and (a b : Cond)
   | or (a b : Cond)
@@ -1171,36 +1267,35 @@ func (c *ctxT) c18Programs() string {
 		emit("executeClaimProg", "NOT FOUND", nil)
 	}
 
-	// 3. gov EndBlocker: the `case passes:` clause of the tally switch and the statements that follow the switch
+	// 3. gov EndBlocker from the end of the inactive-proposal walk on: everything declared before the walk over the
+	//    active proposals, the walk itself as a LOOP over the proposals of the block (Walk callback), with the whole
+	//    per-proposal body (tally, deposits, the switch with `case passes`, SetProposal, hooks)
 	{
 		var prog *irStmt
 		if fd := c.findFunc("x/gov", "", "EndBlocker"); fd != nil && fd.Body != nil {
-			var list []ast.Stmt
-			var find func(n ast.Node) bool
-			find = func(n ast.Node) bool {
-				bs, ok := n.(*ast.BlockStmt)
-				if !ok || list != nil {
-					return list == nil
-				}
-				for i, st := range bs.List {
-					sw, ok := st.(*ast.SwitchStmt)
-					if !ok || sw.Tag != nil {
-						continue
-					}
-					for _, cl := range sw.Body.List {
-						cc := cl.(*ast.CaseClause)
-						if len(cc.List) == 1 && c.src(cc.List[0]) == "passes" {
-							list = append([]ast.Stmt{&ast.SwitchStmt{Body: &ast.BlockStmt{List: []ast.Stmt{&ast.CaseClause{Body: cc.Body}}}}}, bs.List[i+1:]...)
-							return false
+			list := fd.Body.List
+			for i, st := range fd.Body.List {
+				if as, ok := st.(*ast.AssignStmt); ok && len(as.Rhs) == 1 && strings.Contains(c.src(as.Rhs[0]), "InactiveProposalsQueue.Walk") {
+					list = fd.Body.List[i+1:]
+					if len(list) > 0 {
+						if is, ok := list[0].(*ast.IfStmt); ok && strings.Contains(c.src(is.Cond), "err != nil") {
+							list = list[1:] // the error check of the inactive walk
 						}
 					}
+					break
 				}
-				return true
 			}
-			ast.Inspect(fd.Body, find)
 			prog = top("x/gov", fd, list, fd.Body)
 		}
-		emit("govProg", "gov `EndBlocker`: the `case passes:` clause of the tally switch followed by the statements after the switch (`SetProposal`, hooks)", prog)
+		emit("govProg", "gov `EndBlocker` after the walk over the inactive proposals: the walk over the active proposals whose voting period ended as a loop over the proposals of the block, `safeExecuteHandler` inlined", prog)
+	}
+
+	// 3b. the executeClaim precompile method: on which context the keeper's ExecuteClaim runs (inside a statedb native
+	//     action, i.e. on a snapshot that is reverted on error, or on stateDB.Context() directly)
+	if fd := c.findFunc("x/crosschain/precompile", "ExecuteClaimMethod", "Run"); fd != nil && fd.Body != nil {
+		emit("executeClaimPrecompileProg", "`ExecuteClaimMethod.Run` of the crosschain precompile (`ExecuteClaim` of the keeper is a leaf here; its body is `executeClaimProg`)", top("x/crosschain/precompile", fd, fd.Body.List, fd.Body))
+	} else {
+		emit("executeClaimPrecompileProg", "NOT FOUND", nil)
 	}
 
 	// 4. ibc-go core RecvPacket (the version named in /repo/go.mod) with the application callback bound to
